@@ -78,6 +78,29 @@ func convCompFuncV1ToV2(cf *ugo.CompiledFunction, opWidth []int) error {
 		return nil
 	}
 
+	// Widening an operand moves every later instruction: map each v1
+	// instruction start (and the end) to its v2 position to relocate targets.
+	newPos := make(map[int]int)
+	for i, n := 0, 0; ; {
+		newPos[i] = n
+		if i >= len(cf.Instructions) {
+			break
+		}
+		op := cf.Instructions[i]
+		if int(op) >= len(opWidth) {
+			return fmt.Errorf("unknown opcode %d at %d", op, i)
+		}
+		w := opWidth[op]
+		n += 1 + w
+		switch op {
+		case opv1.OpJump, opv1.OpJumpFalsy, opv1.OpAndJump, opv1.OpOrJump:
+			n += 2
+		case opv1.OpSetupTry:
+			n += 4
+		}
+		i += 1 + w
+	}
+
 	var newInsts []byte
 	newSrcMap := make(map[int]int, len(cf.SourceMap))
 	operands := make([]int, 0, 4)
@@ -107,6 +130,12 @@ func convCompFuncV1ToV2(cf *ugo.CompiledFunction, opWidth []int) error {
 				cf.Instructions[i+1:],
 				operands[:0],
 			)
+
+			for j, target := range operands {
+				if np, ok := newPos[target]; ok {
+					operands[j] = np
+				}
+			}
 
 			var err error
 			instBuf, err = ugo.MakeInstruction(instBuf[:0], op, operands...)
